@@ -220,6 +220,15 @@ try:
         forged = request([[a], [v2]], sigmaker=lambda keys, k, inc, exp: ksrxml.mk_sig(dict(k, priv=a["priv"]), keys, inc, exp))
         C.judge("other-key-under-known-identifier-signed-by-first-key", pol(2), xml=ksrxml.render_ksr(forged), strict=False)
         C.judge("other-key-under-known-identifier-keys-match-on", pol(2, keys_match=True), xml=ksrxml.render_ksr(forged), strict=False)
+    # a ZSK whose key tag sum carries a second time (RFC 4034 App. B discards that carry): honestly tagged and signed, alone and with others
+    ztc = ksrxml.mk_key(P.ec_tag_carry(13, 256), alg=13, ident="ZSK-tag-carry")
+    P.save()
+    C.judge("honest-key-tag-double-carry", pol(1), xml=ksrxml.render_ksr(request([[ztc]])), desc={"tag": ztc["tag"]}, built="accept")
+    C.judge("honest-key-tag-double-carry", pol(1, keys_match=True), xml=ksrxml.render_ksr(request([[ztc]])), desc={"tag": ztc["tag"], "keys_match_zsk_policy": True}, built="accept")
+    oth_ = R.choice([x for x in KEYS if x["alg"] == 13])
+    C.judge("honest-key-tag-double-carry", pol(2, keys_match=True), xml=ksrxml.render_ksr(request([[ztc, oth_], [oth_, ztc]])), desc={"tag": ztc["tag"], "keys_match_zsk_policy": True}, built="accept")
+    r2 = clone(request([[ztc]])); r2["bundles"][0]["keys"][0]["tag"] = (ztc["tag"] + 1) % 65536; r2["bundles"][0]["sigs"][0]["tag"] = (ztc["tag"] + 1) % 65536
+    C.judge("key-tag-double-carry-off-by-one", pol(1), xml=ksrxml.render_ksr(r2), desc={"tag": ztc["tag"]}, built="reject")
     # honest bundles with ECDSA keys of awkward byte patterns: X starting with 0x04 (looks like a SEC1 prefix), 0x00, the DER length octet
     ODD = [ksrxml.mk_key(P.ec_x_first(13, 4), alg=13, ident="ZSK-x04-256"), ksrxml.mk_key(P.ec_x_first(14, 4), alg=14, ident="ZSK-x04-384"),
            ksrxml.mk_key(P.ec_x_first(13, 0), alg=13, ident="ZSK-x00-256"), ksrxml.mk_key(P.ec_x_lenlike(13), alg=13, ident="ZSK-x3f-256")]
